@@ -130,6 +130,11 @@ def ctxLower (c : Nat) (last : Option Nat) : Part.Bound :=
   | some l => .excluded (be 16 c ++ be 16 l)
   | none => .included (be 16 c)
 
+/-- end bound of a context-scoped scan: the key prefix of the next context; for the last
+    possible context id nothing sorts after its keys and the range is open-ended -/
+def ctxUpper (c : Nat) : Part.Bound :=
+  if c + 1 < idBound then .excluded (be 16 (c + 1)) else .unbounded
+
 /-- start bound of the all-contexts scan: `Excluded(last)` or unbounded -/
 def allLower (last : Option Nat) : Part.Bound :=
   match last with
@@ -140,7 +145,7 @@ def allLower (last : Option Nat) : Part.Bound :=
 def State.iterFrames (s : State) (ctx : Option Nat) (last : Option Nat) : List Frame :=
   match ctx with
   | some c =>
-    (Part.range (ctxLower c last) (.excluded (ctxRangeEnd c)) s.idxC).filterMap
+    (Part.range (ctxLower c last) (ctxUpper c) s.idxC).filterMap
       (fun kv => if kv.1.length = 32 then s.get (idOfCtxKey kv.1) else none)
   | none =>
     (Part.range (allLower last) .unbounded s.stream).map (·.2)
